@@ -157,6 +157,7 @@ def main():
         c = base(f)
         what = describe(c, trial)
         before = snap(f)
+        sess_before = (f.auto_update_timestamps, f.mode)          # the session's own switches are state, too
         nixio.util.util.now_int = lambda: 2000000000
         try:
             perform(c, trial)
@@ -175,6 +176,12 @@ def main():
                 ch = observable(diff(before, after), before, after)
             except Exception as exc2:
                 ch = ["the file cannot be read any more: " + type(exc2).__name__]
+            try:
+                if (f.auto_update_timestamps, f.mode) != sess_before:
+                    ch = list(ch) + ["~session switches (auto_update_timestamps, mode): %r -> %r"
+                                     % (sess_before, (f.auto_update_timestamps, f.mode))]
+            except Exception as exc3:
+                ch = list(ch) + ["~session switches unreadable: " + type(exc3).__name__]
             if ch:
                 out["violations"].append({"call": what, "exception": exc_name, "changed": ch[:6]})
         try:
